@@ -56,6 +56,10 @@ pub struct CompPlan {
     /// the walk, i.e. (in a component) usually while the cursor is in ANOTHER module
     #[serde(default)]
     pub far: Vec<u32>,
+    /// the component iterator first takes this many steps, is `reset()`, and only then does the walk that
+    /// is compared (0 = no pre-walk; the per-module reference iterators are always fresh)
+    #[serde(default)]
+    pub prewalk: u32,
 }
 
 /// (params, results) of the function import `imp` of `m` if a body of constants can be built for it
@@ -295,6 +299,10 @@ pub fn gen_c26_for(property: &str, run_seed: u64) -> Result<Scenario, String> {
         }
     }
     plan.finish = *rng.pick(&[0u8, 1, 1, 2, 2, 2, 3]);
+    if rng.chance(1, 3) {
+        // a partial or complete walk before reset(): the cursor is then usually in a later module
+        plan.prewalk = if rng.chance(1, 3) { 100_000 } else { 1 + rng.below(60) as u32 };
+    }
     let hash_seed = rng.next();
     Ok(Scenario {
         property: property.into(),
@@ -610,6 +618,14 @@ pub fn judge_c26(sc: &Scenario) -> (Judged, RunResult) {
             sm.insert(*k, v.clone());
         }
         let mut it = ComponentIterator::new(&mut comp, sm);
+        if plan.prewalk > 0 && any_visit {
+            for _ in 0..plan.prewalk {
+                if it.next().is_none() {
+                    break;
+                }
+            }
+            it.reset();
+        }
         if !any_visit {
             let mut n = 0;
             while it.next().is_some() && n < 1000 {
